@@ -265,6 +265,7 @@ func init() {
 			unsupported("truncate beyond the file size")
 		}
 		n.data = n.data[:sz]
+		n.mtime = intrinsics["time.Now"](e, fr, nil) // truncate(2) updates the modification time
 		return Iface{}
 	})
 	I("os.MkdirTemp", func(e *Engine, fr *frame, a []Value) Value {
